@@ -6,50 +6,61 @@ Nothing here imports traits at module level.
 import itertools
 
 ATTR = {"c": "child", "k": "kids", "b": "byname"}
+# alternative trait NAMES (flag 'N'): every link name contains the text `_items`, which the
+# listener machinery also uses as the suffix of its container-event traits
+ATTR_ALT = {"c": "sub_items_node", "k": "kid_items", "b": "line_items"}
 FINAL = {"v": "value", "x": "aux"}
-TRAIT_ORDER = [("child", "c"), ("kids", "k"), ("kids_items", "ki"), ("byname", "b"), ("byname_items", "bi"),
-               ("value", "v"), ("aux", "x")]
-SHORT = dict(TRAIT_ORDER)
 KNOWN_ITEMS_SIG = "intermediate-items-unreported:first-link-src-handler"
 
-_N = None
+
+def trait_order(A):
+    return [(A["c"], "c"), (A["k"], "k"), (A["k"] + "_items", "ki"), (A["b"], "b"), (A["b"] + "_items", "bi"),
+            ("value", "v"), ("aux", "x")]
 
 
-def node_classes():
-    """(Node, ENode): identity equality / value-based equality (`__eq__` on `value`, unhashable).
-    Tree-shapedness is about identity, so graphs of ENodes stay inside the property's quantifier;
-    the listener machinery must never confuse an object with an equal one."""
-    global _N
-    if _N is None:
+_CLASSES = {}
+
+
+def node_class(eq=False, falsy="", renamed=False):
+    """The node class of a case.
+    eq      value-based `__eq__` on `value`, unhashable: tree-shapedness is about identity, the
+            listener machinery must never confuse an object with an equal one;
+    falsy   'F': container protocol, `__len__` = number of kids (a node without kids is falsy and
+            becomes truthy later); 'Z': `__bool__` is always False.  Nothing in the statement
+            depends on an object's truth value;
+    renamed link traits called sub_items_node / kid_items / line_items (names are opaque to the
+            statement and to the model)."""
+    key = (eq, falsy, renamed)
+    if key not in _CLASSES:
         from traits.api import HasTraits, Int, Instance, List, Dict, Str
-
-        class Node(HasTraits):
-            value = Int
-            aux = Int
-            child = Instance(HasTraits)
-            kids = List(Instance(HasTraits))
-            byname = Dict(Str, Instance(HasTraits))
-
-        class ENode(Node):
+        A = ATTR_ALT if renamed else ATTR
+        body = {"value": Int, "aux": Int, A["c"]: Instance(HasTraits), A["k"]: List(Instance(HasTraits)),
+                A["b"]: Dict(Str, Instance(HasTraits))}
+        if eq:
             def __eq__(self, other):
-                if not isinstance(other, ENode):
+                if not isinstance(other, cls):
                     return NotImplemented
                 return self.value == other.value
 
             def __ne__(self, other):
                 r = self.__eq__(other)
                 return r if r is NotImplemented else not r
-
-            __hash__ = None
-        _N = (Node, ENode)
-    return _N
+            body.update({"__eq__": __eq__, "__ne__": __ne__, "__hash__": None})
+        if falsy == "F":
+            kname = A["k"]
+            body["__len__"] = lambda self: len(self.__dict__.get(kname, ()))
+        elif falsy == "Z":
+            body["__bool__"] = lambda self: False
+        cls = type("Node", (HasTraits,), body)
+        _CLASSES[key] = cls
+    return _CLASSES[key]
 
 
 # --------------------------------------------------------------------------
 # line protocol
 # --------------------------------------------------------------------------
 
-FLAGS = ("E", "I", "D", "K")
+FLAGS = ("E", "I", "D", "K", "F", "Z", "N")
 KNOWN_LATE_SIG = "deferred-late-registration:existing-items-unhooked"
 
 
@@ -57,7 +68,8 @@ def parse_mode(s):
     """Header flags: 'E' = value-equality nodes + equal clones on replacement; 'D' = deferred
     registration, made by the @on_trait_change decorator on the root's class when the history
     starts with `rg`, by on_trait_change(root._h, name, deferred=True) otherwise / later;
-    'K' = deferred=True keyword with a plain function handler."""
+    'K' = deferred=True keyword with a plain function handler; 'F' / 'Z' = falsy node classes,
+    'N' = link trait names containing `_items` (see node_class)."""
     out = ""
     for w in s.split():
         if w not in FLAGS:
@@ -81,18 +93,18 @@ def parse_name(s):
     return arity, links, w[-1]
 
 
-def legacy_name(links, final):
+def legacy_name(links, final, A=ATTR):
     out = ""
     for a, notify in links:
-        out += ATTR[a] + ("." if notify else ":")
+        out += A[a] + ("." if notify else ":")
     return out + FINAL[final]
 
 
-def observe_expr(links, final):
+def observe_expr(links, final, A=ATTR):
     out = ""
     for a, notify in links:
         c = "." if notify else ":"
-        out += ATTR[a] + c
+        out += A[a] + c
         if a in "kb":
             out += "items" + c
     return out + FINAL[final]
@@ -312,7 +324,7 @@ def dst_case(rng):
     (`sc 0 2`) or differs from (`sc 0 1`) the replaced one's.  Implementation + oracle only."""
     arity = rng.choice([1, 2])
     final = "v" if rng.random() < 0.8 else "x"
-    mode = rng.choice(["", "", "", "D", "K"])
+    mode = rng.choice(["", "", "", "D", "K"]) + rng.choice(["", "", "", "F", "Z", "N"])
     sh = Shadow()
     ops = []
     nops = rng.randint(2, 10)
@@ -341,7 +353,7 @@ def dst_case(rng):
 
 
 def show_name(arity, links, final, mode="I"):
-    return ("#" if arity in (1, 2) else "") + "".join(f + " " for f in mode if f in "EDK") + " ".join([str(arity)] + [a + ("." if n else ":") for a, n in links] + [final])
+    return ("#" if arity in (1, 2) else "") + "".join(f + " " for f in mode if f in "EDKFZN") + " ".join([str(arity)] + [a + ("." if n else ":") for a, n in links] + [final])
 
 
 def show_ops(ops):
@@ -358,6 +370,13 @@ def random_case(rng, name=None, cap=26):
         mode += "D"
     elif r < 0.30:
         mode += "K"
+    r = rng.random()
+    if r < 0.12:
+        mode += "F"
+    elif r < 0.20:
+        mode += "Z"
+    if rng.random() < 0.2:
+        mode += "N"
     eq = "E" in mode
     if ("D" in mode or "K" in mode) and name is None:
         # deferred registrations matter for container first links
@@ -403,7 +422,8 @@ def random_case(rng, name=None, cap=26):
     return show_name(arity, links, final, mode) + "|" + show_ops(ops)
 
 
-# 13 fixed names (two with value-equality nodes, three with deferred registrations); for each a prefix building a 3-object tree along the name and the
+# 17 fixed names (two with value-equality nodes, three with deferred registrations, two with falsy
+# nodes, two with link trait names containing `_items`); for each a prefix building a 3-object tree along the name and the
 # alphabet of the exhaustive histories (every op kind on every object of the tree).
 EXH = [
     ("4 c. c. v", "sc 0 1;sc 1 1"),
@@ -419,6 +439,10 @@ EXH = [
     ("D 4 k: v", "sk 0 2"),
     ("K 4 b. v", "sb 0 0 1"),
     ("D 0 c. k. v", "sc 0 1;sk 1 1"),
+    ("F 4 c. k. v", "sc 0 1;sk 1 1"),
+    ("Z 4 k: v", "sk 0 2"),
+    ("N 4 b. v", "sb 0 0 1"),
+    ("N 4 c. k. v", "sc 0 1;sk 1 1"),
 ]
 
 
@@ -446,8 +470,18 @@ def _alphabet(name):
     return al
 
 
-def exhaustive(maxlen):
+def exhaustive(maxlen, short_for_variants=False):
+    """With short_for_variants the names that only vary what is opaque to the model (falsy node
+    classes, `_items` names) are enumerated one step shorter."""
     for name, prefix in EXH:
+        if short_for_variants and name[0] in "FZN":
+            yield from _exhaustive_one(name, prefix, maxlen - 1)
+        else:
+            yield from _exhaustive_one(name, prefix, maxlen)
+
+
+def _exhaustive_one(name, prefix, maxlen):
+    if True:
         al = _alphabet(name)
         for pre in (prefix + ";rg", "rg;" + prefix):
             for n in range(1, maxlen + 1):
@@ -478,7 +512,10 @@ class World:
         self.eq = "E" in mode
         self.deferred = "D" in mode or "K" in mode
         self.method = "D" in mode          # the handler is a method of the root
-        self.Node = node_classes()[1 if self.eq else 0]
+        self.A = ATTR_ALT if "N" in mode else ATTR
+        self.order = trait_order(self.A)
+        self.short = dict(self.order)
+        self.Node = node_class(self.eq, "F" if "F" in mode else "Z" if "Z" in mode else "", "N" in mode)
         self.arity, self.links, self.final = arity, links, final
         self.pool = []
         self.idof = {}
@@ -492,10 +529,10 @@ class World:
         w = self
 
         def rec4(obj, name, old, new):
-            w.legacy.append((w.idof.get(id(obj), -1), SHORT.get(name, name), old, new))
+            w.legacy.append((w.idof.get(id(obj), -1), w.short.get(name, name), old, new))
 
         def rec3(obj, name, new):
-            w.legacy.append((w.idof.get(id(obj), -1), SHORT.get(name, name), None, new))
+            w.legacy.append((w.idof.get(id(obj), -1), w.short.get(name, name), None, new))
 
         def rec2(name, new):
             # (object, trait) are those of the running change; the name given is kept for the oracle
@@ -519,7 +556,7 @@ class World:
                 # what `@on_trait_change(name)` in a class body does: the listener is
                 # registered (deferred=True) by HasTraits.__init__ of every instance
                 from traits.api import on_trait_change
-                meth = on_trait_change(legacy_name(links, final))(meth)
+                meth = on_trait_change(legacy_name(links, final, self.A))(meth)
             root_cls = type("Root", (self.Node,), {"_h": meth})
             self.root = self.new(cls=root_cls)
             self.lh = self.root._h
@@ -552,21 +589,21 @@ class World:
     def canon_event(self, ev):
         n = type(ev).__name__
         if n == "TraitChangeEvent":
-            return (self.idof.get(id(ev.object), -1), SHORT.get(ev.name, ev.name))
+            return (self.idof.get(id(ev.object), -1), self.short.get(ev.name, ev.name))
         if n in ("ListChangeEvent", "DictChangeEvent"):
             owner = ev.object.object()
-            return (self.idof.get(id(owner), -1), SHORT.get(ev.object.name + "_items", "?"))
+            return (self.idof.get(id(owner), -1), self.short.get(ev.object.name + "_items", "?"))
         return (-1, n)
 
     # ---- reachability on the real object graph (never materialises a default) ----
     def targets(self, a, o):
         d = o.__dict__
         if a == "c":
-            v = d.get("child")
+            v = d.get(self.A["c"])
             return [] if v is None else [v]
         if a == "k":
-            return list(d.get("kids", ()))
-        return list(d.get("byname", {}).values())
+            return list(d.get(self.A["k"], ()))
+        return list(d.get(self.A["b"], {}).values())
 
     def levels(self):
         lv = [[self.root]]
@@ -600,7 +637,7 @@ class World:
         objs = []
         for i, o in enumerate(self.pool):
             parts = []
-            for tname, short in TRAIT_ORDER:
+            for tname, short in self.order:
                 t = o._trait(tname, 1)
                 if t is None:
                     continue
@@ -629,7 +666,7 @@ class World:
         if k == "rg":
             if self.registered:
                 return None
-            name = legacy_name(self.links, self.final)
+            name = legacy_name(self.links, self.final, self.A)
             if self.pre_registered:
                 self.pre_registered = False    # done by the decorator while the root was created
             elif self.deferred:
@@ -644,14 +681,14 @@ class World:
             while it is not None:
                 self.chain.append(it)
                 it = it.next
-            self.root.observe(self.oh, observe_expr(self.links, self.final))
+            self.root.observe(self.oh, observe_expr(self.links, self.final, self.A))
             self.registered = True
             return (-1, "rg", False)
         if k == "rm":
             if not self.registered:
                 return None
-            self.root.on_trait_change(self.lh, legacy_name(self.links, self.final), remove=True)
-            self.root.observe(self.oh, observe_expr(self.links, self.final), remove=True)
+            self.root.on_trait_change(self.lh, legacy_name(self.links, self.final, self.A), remove=True)
+            self.root.observe(self.oh, observe_expr(self.links, self.final, self.A), remove=True)
             self.registered = False
             self.late = None
             return (-1, "rm", False)
@@ -661,127 +698,129 @@ class World:
             return None
         o = self.pool[i]
         if k == "sc":
-            old = o.__dict__.get("child")
+            old = o.__dict__.get(self.A["c"])
             self.current = (i, "c")
             if a[1] == 2 and not self.eq:
                 new = self.new(old, copy=True)     # fresh, but with the scalars of the object it replaces
             else:
                 new = self.new() if a[1] else None
-            o.child = new
+            setattr(o, self.A["c"], new)
             return (i, "c", old is not new)
         if k == "sk":
-            old = list(o.__dict__.get("kids", ()))
+            old = list(o.__dict__.get(self.A["k"], ()))
             self.current = (i, "k")
             new = self.fresh(a[1])
-            o.kids = new
+            setattr(o, self.A["k"], new)
             return (i, "k", bool(old or new))
         if k in ("ap", "in", "dl", "sl", "cl", "si"):
             self.current = (i, "ki")
-            n = len(o.__dict__.get("kids", ()))
+            n = len(o.__dict__.get(self.A["k"], ()))
             if k == "si":
                 if a[1] >= n:
                     return None
-                o.kids[a[1]] = self.new(o.kids[a[1]])
+                getattr(o, self.A["k"])[a[1]] = self.new(getattr(o, self.A["k"])[a[1]])
                 return (i, "ki", True)
             if k == "ap":
-                o.kids.append(self.new())
+                getattr(o, self.A["k"]).append(self.new())
                 return (i, "ki", True)
             if k == "in":
                 if a[1] > n:
                     return None
-                o.kids.insert(a[1], self.new())
+                getattr(o, self.A["k"]).insert(a[1], self.new())
                 return (i, "ki", True)
             if k == "dl":
                 if a[1] >= n:
                     return None
-                del o.kids[a[1]]
+                del getattr(o, self.A["k"])[a[1]]
                 return (i, "ki", True)
             if k == "sl":
                 lo, hi, cnt = a[1:]
                 if not (lo <= hi <= n):
                     return None
-                o.kids[lo:hi] = self.fresh(cnt, o.kids[lo:hi])
+                getattr(o, self.A["k"])[lo:hi] = self.fresh(cnt, getattr(o, self.A["k"])[lo:hi])
                 return (i, "ki", hi > lo or cnt > 0)
-            o.kids.clear()
+            getattr(o, self.A["k"]).clear()
             return (i, "ki", n > 0)
         if k in ("rv", "so", "ro", "kp"):
             self.current = (i, "ki")
-            cur = list(o.__dict__.get("kids", ()))
+            cur = list(o.__dict__.get(self.A["k"], ()))
             if k == "rv":
-                o.kids.reverse()
+                getattr(o, self.A["k"]).reverse()
             elif k == "so":
                 pos = dict((id(x), t) for t, x in enumerate(cur))
-                o.kids.sort(key=lambda x: -pos[id(x)])
+                getattr(o, self.A["k"]).sort(key=lambda x: -pos[id(x)])
             elif k == "ro":
-                o.kids[:] = cur[1:] + cur[:1]
+                getattr(o, self.A["k"])[:] = cur[1:] + cur[:1]
             else:
-                o.kids[:] = cur[a[1]:] + self.fresh(a[2])
+                getattr(o, self.A["k"])[:] = cur[a[1]:] + self.fresh(a[2])
             return (i, "ki", bool(cur) or (k == "kp" and a[2] > 0))
         if k in ("kc", "kr"):
             if self.eq:
                 return None      # whether the trait fires would depend on == of the items
             self.current = (i, "k")
-            cur = list(o.__dict__.get("kids", ()))
+            cur = list(o.__dict__.get(self.A["k"], ()))
             new = cur[::-1] if k == "kr" else cur[a[1]:] + self.fresh(a[2])
-            o.kids = new
+            setattr(o, self.A["k"], new)
             return (i, "k", [id(x) for x in cur] != [id(x) for x in new])
         if k == "bd":
             if self.eq:
                 return None
             self.current = (i, "b")
-            cur = list(o.__dict__.get("byname", {}).items())
-            o.byname = dict(reversed(cur[a[1]:]))
+            cur = list(o.__dict__.get(self.A["b"], {}).items())
+            setattr(o, self.A["b"], dict(reversed(cur[a[1]:])))
             return (i, "b", min(a[1], len(cur)) > 0)
         if k == "sb":
             keys = list(dict.fromkeys(a[1:]))
-            old = dict(o.__dict__.get("byname", {}))
+            old = dict(o.__dict__.get(self.A["b"], {}))
             self.current = (i, "b")
-            o.byname = dict(("k%d" % key, v) for key, v in zip(keys, self.fresh(len(keys))))
+            setattr(o, self.A["b"], dict(("k%d" % key, v) for key, v in zip(keys, self.fresh(len(keys)))))
             return (i, "b", bool(old or keys))
         if k == "ds":
             self.current = (i, "bi")
             key = "k%d" % a[1]
-            o.byname[key] = self.new(o.__dict__.get("byname", {}).get(key))
+            getattr(o, self.A["b"])[key] = self.new(o.__dict__.get(self.A["b"], {}).get(key))
             return (i, "bi", True)
         if k in ("du", "di"):
             self.current = (i, "bi")
             keys = list(dict.fromkeys(a[1:]))
-            cur = o.__dict__.get("byname", {})
+            cur = o.__dict__.get(self.A["b"], {})
             new = dict(("k%d" % key, self.new(cur.get("k%d" % key))) for key in keys)
             if k == "du":
-                o.byname.update(new)
+                getattr(o, self.A["b"]).update(new)
             else:
-                o.byname |= new
+                d = getattr(o, self.A["b"])      # what `o.<dict> |= new` does
+                d |= new
+                setattr(o, self.A["b"], d)
             return (i, "bi", bool(keys))
         if k == "sd":
             self.current = (i, "bi")
             key = "k%d" % a[1]
-            if key in o.__dict__.get("byname", {}):
+            if key in o.__dict__.get(self.A["b"], {}):
                 return None          # setdefault on a present key does nothing (no object is created)
-            o.byname.setdefault(key, self.new())
+            getattr(o, self.A["b"]).setdefault(key, self.new())
             return (i, "bi", True)
         if k == "dp":
             self.current = (i, "bi")
-            if ("k%d" % a[1]) not in o.__dict__.get("byname", {}):
+            if ("k%d" % a[1]) not in o.__dict__.get(self.A["b"], {}):
                 return None
-            o.byname.pop("k%d" % a[1])
+            getattr(o, self.A["b"]).pop("k%d" % a[1])
             return (i, "bi", True)
         if k == "dq":
             self.current = (i, "bi")
-            if not o.__dict__.get("byname", {}):
+            if not o.__dict__.get(self.A["b"], {}):
                 return None
-            o.byname.popitem()
+            getattr(o, self.A["b"]).popitem()
             return (i, "bi", True)
         if k == "dd":
             self.current = (i, "bi")
-            if ("k%d" % a[1]) not in o.__dict__.get("byname", {}):
+            if ("k%d" % a[1]) not in o.__dict__.get(self.A["b"], {}):
                 return None
-            del o.byname["k%d" % a[1]]
+            del getattr(o, self.A["b"])["k%d" % a[1]]
             return (i, "bi", True)
         if k == "dc":
             self.current = (i, "bi")
-            n = len(o.__dict__.get("byname", {}))
-            o.byname.clear()
+            n = len(o.__dict__.get(self.A["b"], {}))
+            getattr(o, self.A["b"]).clear()
             return (i, "bi", n > 0)
         if k in ("pv", "px"):
             t = "v" if k == "pv" else "x"
@@ -814,6 +853,8 @@ def _run(arity, links, final, ops, mode=""):
     n = len(links)
     tags.add("arity%d" % arity)
     tags.add("nodes:" + ("value-eq" if "E" in mode else "identity-eq"))
+    tags.add("truth:" + ("falsy-until-kids" if "F" in mode else "always-falsy" if "Z" in mode else "truthy"))
+    tags.add("names:" + ("with-_items" if "N" in mode else "plain"))
     tags.add("registration:" + ("decorator" if w.pre_registered else "deferred-method" if "D" in mode else
                                 "deferred-kwarg" if "K" in mode else "plain"))
     tags.add("links%d" % n)
@@ -881,14 +922,14 @@ def _run(arity, links, final, ops, mode=""):
                         sig = KNOWN_LATE_SIG
                         tags.add("known:deferred-late")
                     hits.append(_hit(sig, "legacy handler calls %s, the statement demands %s" % (_calls(L), _calls(exp)),
-                                     op=" ".join(op), name=legacy_name(links, final), arity=arity))
+                                     op=" ".join(op), name=legacy_name(links, final, w.A), arity=arity))
                 if sorted(O) != sorted(exp):
                     hits.append(_hit("%s:observe-%s:%s" % (kind, "missing" if len(O) < len(exp) else "spurious", tshort),
                                      "observe handler calls %s, the statement demands %s" % (_calls(O), _calls(exp)),
-                                     op=" ".join(op), expr=observe_expr(links, final)))
+                                     op=" ".join(op), expr=observe_expr(links, final, w.A)))
             if dst_dot and tshort == "c" and oid == 0 and was_registered and changed:
                 tags.add("dst-link-change:" + ("equal-final" if op[2] == "2" else "other-final"))
-                newc = w.root.__dict__.get("child")
+                newc = w.root.__dict__.get(w.A["c"])
                 want = getattr(newc, FINAL[final])
                 for (o_, t_, nm, new) in w.legacy:
                     if new != want or (arity == 2 and nm != FINAL[final]):
@@ -940,7 +981,7 @@ def _run(arity, links, final, ops, mode=""):
                 hits.append(_hit(sig,
                                  "after `%s`: legacy handler fires for %s, observe handler for %s (probing %s)" % (
                                      " ".join(op), _ids(lg), _ids(ob), FINAL[t]),
-                                 name=legacy_name(links, final), expr=observe_expr(links, final)))
+                                 name=legacy_name(links, final, w.A), expr=observe_expr(links, final, w.A)))
             for who, got in (("legacy", lg), ("observe", ob)):
                 if sorted(got) != exp:
                     if not w.registered:
